@@ -503,6 +503,12 @@ func SizesProgram(rng *rand.Rand, id string, cfg Cfg, huge bool) *Program {
 				p.Ops = append(p.Ops, Op{Op: "del", K: k.tag, KL: k.n}, Op{Op: "count"})
 			}
 		}
+		if rng.Intn(2) == 0 {
+			// the smallest admissible record - empty key, empty value: six zero bytes and a checksum - followed by another
+			// record, then the process dies (fault runs) and the log is replayed, or the segment is compacted
+			p.Ops = append(p.Ops, Op{Op: "put", K: "", V: ""}, Op{Op: "put", K: "a", V: fmt.Sprintf("after%d_", round), VL: rng.Intn(40)},
+				Op{Op: "crashnow"}, Op{Op: "get", K: ""}, Op{Op: "has", K: ""}, Op{Op: "compact"})
+		}
 		p.Ops = append(p.Ops, Op{Op: "readall"})
 		switch rng.Intn(4) {
 		case 0:
